@@ -489,6 +489,7 @@ func converterHandler(w http.ResponseWriter, r *http.Request, templateName strin
 	// The conversion is parameterized via process-wide switches (set by the output-specific handlers below), and
 	// logging redirects the process-wide output streams. Requests are served concurrently, so conversions must
 	// be serialized - otherwise one request's settings leak into the response of another.
+	verifYield("lock")
 	conversionLock.Lock()
 	defer conversionLock.Unlock()
 
